@@ -73,4 +73,35 @@ def rule(ctx):
                   'recv() is not guarded by the version comparison', loc=r.loc())
 
 
-RULES = [rule]
+def rule_wait_iff_same_version(ctx):
+    """The request waits exactly when the presented (session, serial) IS the served version."""
+    import re as _re
+    from lib.tables import enumerate_paths
+    b = ctx.body('http::delta::need_wait')
+    n = 0
+    for p in enumerate_paths(b, ctx.facts):
+        if p.kind != 'return' or not (p.outcome or '').startswith('Result::Ok('):
+            continue
+        n += 1
+        inner = p.outcome[len('Result::Ok('):-1]
+        if inner in ('const(0)', 'const(false)'):
+            # no wait: only when the client presented no version at all
+            cm = p.cond_map()
+            nov = any('version_from_query' in v and labs == {'None'} for v, labs in cm.items())
+            ctx.check(nov, 'K4', 'need_wait:no-wait-const<=no-version-presented', 'returns "do not wait" unconditionally only without a version',
+                      'need_wait returns "do not wait" under %s' % {k[:50]: sorted(v) for k, v in cm.items()})
+            continue
+        m = _re.match(r'^call:PartialEq.*?::eq\((.*)\)$', inner)
+        ok = bool(m) and 'session_and_serial' in m.group(1) and 'version_from_query' in m.group(1)
+        ctx.check(ok, 'K4', 'need_wait:wait<=>version-equal',
+                  'the request waits iff (session, serial) presented == session_and_serial() of the history',
+                  'need_wait decides to wait on `%s` instead of equality of the presented (session, serial) with the served one: a client '
+                  'whose version is outdated can be kept waiting (e.g. when the merged delta it would get is empty), or a client at the '
+                  'current version is answered at once in a busy loop' % inner[:160], loc=p.ret_site.loc() if p.ret_site else None)
+    ctx.floor('K4', 'Ok paths of need_wait', n, 2)
+    # and the handler waits exactly on that result
+    from lib.rules import who_calls
+    who_calls(ctx, 'K3', 'http::delta::need_wait', ['http::delta::handle_notify_get_or_head'], floor=1)
+
+
+RULES = [rule_wait_iff_same_version, rule]
